@@ -120,7 +120,7 @@ prop("C15",
 prop("C13",
      [r_si.rule_suffix_after_insert, r_si.rule_suffix_algo, r_si.rule_session_only, r_si.rule_unknown, r_si.rule_compare,
       r_si.rule_pk_state, r_wl.rule_orig_mnem, r_wl.rule_hdr_post, r_si.rule_list_primitives, r_si.rule_pk_rebuild,
-      r_si.rule_pk_list_restore, r_si.rule_read_pure, r_si.rule_accessors, r_si.rule_transforms_first],
+      r_si.rule_pk_list_restore, r_si.rule_read_pure, r_si.rule_accessors, r_si.rule_transforms_first, r_lp.rule_pu_fresh],
      "Pairing rule on CFG paths: in every SectionItems method each placement of an item through list.append/insert/"
      "__setitem__/extend is followed on every path to a normal return by assign_duplicate_suffixes, called "
      "unconditionally with the new item's useful_mnemonic; LASFile.set_data re-assigns all suffixes after renaming "
@@ -205,7 +205,7 @@ prop("C05",
 prop("C06",
      [r_data.rule_null_guard, r_data.rule_null_table, r_data.rule_null_write, r_sec.rule_steer, r_data.rule_counter,
       r_data.rule_null_flat, r_num.rule_numlit, r_wl.rule_ord_table, r_wl.rule_key_norm, r_wl.rule_measure, r_lp.rule_views,
-      r_wrf.rule_determinism, r_data.rule_engine_args_agree],
+      r_wrf.rule_determinism, r_data.rule_engine_args_agree, r_data.rule_subs_source],
      "Guard analysis of the NULL->NaN store in LASFile.read: the store `column[mask] = nan` must exist, its mask must be "
      "an exact `column == <value taken from ~Well NULL>` with no call and no tolerance/rounding function in its "
      "provenance (NULL.EXACT), and by control dependence it executes exactly under: the policy flag (third result of "
@@ -225,7 +225,7 @@ prop("C07",
      [r_data.rule_wrap_count, r_data.rule_tokenizer, r_sec.rule_line_normalise, r_data.rule_counter, r_data.rule_reshape,
       r_data.rule_split, r_sec.rule_reseek, r_sec.rule_end_test, r_si.rule_compare, r_sec.rule_content_only_effects,
       r_data.rule_orient, r_sec.rule_case, r_sec.rule_steer, r_data.rule_engine_select, r_hdrt.rule_every_line,
-      r_data.rule_null_table, r_data.rule_tokens_kept, r_num.rule_curve_raw, r_data.rule_subs_agree, r_data.rule_sample_window, r_data.rule_splitter_guard],
+      r_data.rule_null_table, r_data.rule_tokens_kept, r_num.rule_curve_raw, r_data.rule_subs_agree, r_data.rule_sample_window, r_data.rule_splitter_guard, r_data.rule_single_pass],
      "Column binding analysis: under the assumption WRAP == YES with declared curves, an explicit-state search of "
      "LASFile.read shows that the n_columns argument of the reference engine is never the per-line count sniffed by "
      "inspect_data_section, and all tests on the WRAP value fold to the same predicate over 9 probe values "
@@ -285,7 +285,7 @@ prop("C02",
      [r_sec.rule_convention, r_sec.rule_end_test, r_sec.rule_line_normalise, r_data.rule_orient, r_data.rule_reshape,
       r_sec.rule_reseek, r_sec.rule_scan, r_data.rule_null_flat, r_data.rule_split, r_sec.rule_content_only_effects,
       r_data.rule_read_subs, r_data.rule_wrap_count, r_data.rule_space_tokens, r_data.rule_fast_tokens, r_data.rule_null_table,
-      r_data.rule_null_guard, r_data.rule_tokens_kept, r_sec.rule_line_model, r_data.rule_engine_args_agree, r_sec.rule_steer, r_data.rule_splitter_guard],
+      r_data.rule_null_guard, r_data.rule_tokens_kept, r_sec.rule_line_model, r_data.rule_engine_args_agree, r_sec.rule_steer, r_data.rule_splitter_guard, r_data.rule_single_pass],
      "Engine-agreement clauses: both engines get the same line window - one interval convention for every section end and "
      "the matching affine skip_header = first+1 / max_rows = last-first after seek(0) in the fast engine (SEC.CONVENTION, "
      "SEC.SCAN); the reference engine and the sniffer count every physical line once, test for the section end on every "
@@ -614,6 +614,18 @@ ALSO8 = {
     "C14": "Round 8: LF.VIEWS tests for the attribute self.curves itself (a derived table such as self.curvesdict does not count).",
     "C18": "Round 8: EX.DF names default (the frame's own names are used when names is missing, None or empty).",
 }
+ALSO9 = {
+    "C02": "Round 9: DATA.RESHAPE empty-by-count (a test that sets the column count to zero does not look at the values); DATA.SINGLE-PASS.",
+    "C06": "Round 9: DATA.SUBS-SOURCE (the sniffer withdraws only the substitutions of the keys it lists, never the whole READ_SUBS table).",
+    "C07": "Round 9: DATA.SINGLE-PASS (once an iterator has been made over the engine's result every consumer goes through it).",
+    "C09": "Round 9: SEC.TITLE-PRED compares prefix languages with any remainder (newline included) and follows two-step match tests.",
+    "C11": "Round 9: WR.WRAP-CONSISTENT written copy (a WRAP item stored on las.version after the deep copy was taken is stored on the copy too); "
+           "WR.REFRESH layout-after-alignment.",
+    "C13": "Round 9: PU.FRESH (an item belongs to one section: no element of a module-level table is stored in the default sections without a copy).",
+    "C16": "Round 9: WR.REFRESH layout-after-alignment (no header section is iterated or handed to a formatter before the units are aligned).",
+    "C19": "Round 9: HDR.TOTAL default-fields (fields the matching pattern does not capture default to text, not None).",
+    "C20": "Round 9: release callables (`release = stream.close` / a no-op, called in finally) are lowered to the flag form before IO.TYPESTATE runs.",
+}
 for _pid, _txt in ALSO.items():
     PROPS[_pid]["explanation"] += " " + _txt
 for _pid, _txt in ALSO6.items():
@@ -621,6 +633,8 @@ for _pid, _txt in ALSO6.items():
 for _pid, _txt in ALSO7.items():
     PROPS[_pid]["explanation"] += " " + _txt
 for _pid, _txt in ALSO8.items():
+    PROPS[_pid]["explanation"] += " " + _txt
+for _pid, _txt in ALSO9.items():
     PROPS[_pid]["explanation"] += " " + _txt
 for _pid, _txt in ALSO4.items():
     PROPS[_pid]["explanation"] += " " + _txt
